@@ -150,7 +150,7 @@ var allKeys = [][]byte{{0x61}, {0x62}, {0x61, 0x62}, {0x63}, {0x61, 0x00}}
 
 func bigValue() []byte { return bytes.Repeat([]byte{0xAA}, 520) }
 
-var smallValues = [][]byte{{0x01}, {0x02, 0x02}, {0x03}, {0x01, 0x00}}
+var smallValues = [][]byte{{0x01}, {0x02, 0x02}, {0x03}, {0x01, 0x00}, []byte("ab"), []byte("AB"), {0x80}, {0xff}} // incl. pairs differing only in case / in bytes >= 0x80
 
 func oracleTok(bits []bool) string {
 	t := make([]string, len(bits))
@@ -204,7 +204,10 @@ func (comp) Gen(p string, rng *rand.Rand, tier string) *core.History {
 	nk := 3 + rng.Intn(3)
 	keys := core.WithLongKeys(rng, allKeys[:nk], 12)
 	nv := 2 + rng.Intn(3)
-	values := append([][]byte{}, smallValues[:nv]...)
+	values := make([][]byte, 0, nv)
+	for _, j := range rng.Perm(len(smallValues))[:nv] {
+		values = append(values, smallValues[j])
+	}
 	if kind == 1 && core.Chance(rng, 1, 2) {
 		values[nv-1] = bigValue() // two of these exceed the byte capacity of the size-bounded LRU
 	}
@@ -864,7 +867,8 @@ func (comp) Extra(p string, tier string, seed int64, scratch string) *core.Extra
 	res := &core.ExtraResult{Counts: map[string]int{}, Exhaustive: true}
 	res.Rule = "factory.NewStorageUnitFromConf on the grid capacity 0..6 x MaxBatchSize -2..8 x {LRU, SizeLRU, FIFOSharded} x {MemoryDB, LvlDB, LvlDBSerial}, plus 14 refused cases at the edge of int / uint32 (MaxBatchSize 2^31 .. MaxInt64, Capacity up to MaxUint32): " +
 		"the error is ErrCacheSizeIsLowerThanBatchSize exactly when MaxBatchSize > Capacity (Coq: factory_refuses); when it is not refused " +
-		"and the cache configuration is valid, a working unit is returned"
+		"and the cache configuration is valid, a working unit is returned. Plus rounds in which the caller keeps ONE buffer per key, rewrites it in place and Puts it again (the " +
+		"cache holds the caller's slice by reference, so a Put that compares the new value with the cached one compares the buffer with itself): after ClearCache every key reads the bytes of its last acknowledged Put"
 	n := 0
 	for kind := 0; kind < 3; kind++ {
 		for pkind := 0; pkind < 3; pkind++ {
@@ -936,10 +940,65 @@ func (comp) Extra(p string, tier string, seed int64, scratch string) *core.Extra
 			}
 		}
 	}
+	n += reusedUnitBuffer(res, prop, tier, seed, scratch)
 	res.Evaluations, res.Distinct = n, n
 	res.Samples = []string{"LRU capacity=2 MaxBatchSize=3 -> refused", "LRU capacity=2 MaxBatchSize=2 -> built", "FIFOSharded capacity=1 MaxBatchSize=-1 -> built"}
 	for i := range res.Fails {
 		res.Replays = append(res.Replays, res.Fails[i].Msg)
 	}
 	return res
+}
+
+
+// reusedUnitBuffer: a caller that keeps one buffer per key, rewrites it in place and calls Put(key, buffer) again. Between the rewrite
+// and the Put nothing is read (the unit caches the caller's slice by reference: C16's domain excludes reading in that window), so on a
+// correct unit every Put writes through and, once the cache is cleared, Get returns the bytes of the last acknowledged Put.
+func reusedUnitBuffer(res *core.ExtraResult, prop, tier string, seed int64, scratch string) int {
+	rounds := 12
+	if tier == "thorough" {
+		rounds = 120
+	}
+	rng := rand.New(rand.NewSource(seed*15485863 + 11))
+	n := 0
+	for r := 0; r < rounds && len(res.Fails) == 0; r++ {
+		kind := r % 3
+		cc := common.CacheConfig{Name: "verif", Type: cacheTypeOf(kind), Capacity: 8, Shards: 1}
+		if kind == 1 {
+			cc.SizeInBytes = sizedLRUBytes
+		}
+		dc := common.DBConfig{FilePath: filepath.Join(scratch, fmt.Sprintf("reuse-%d", r)), Type: dbTypeOf(1 + r%2), BatchDelaySeconds: 3600, MaxBatchSize: 1 + rng.Intn(4), MaxOpenFiles: 10}
+		u, err := factory.NewStorageUnitFromConf(cc, dc)
+		if err != nil {
+			continue
+		}
+		bufs := map[string][]byte{}
+		want := map[string][]byte{}
+		for i := 0; i < 30; i++ {
+			k := fmt.Sprintf("k%d", rng.Intn(4))
+			b, ok := bufs[k]
+			if !ok {
+				b = make([]byte, 8)
+				bufs[k] = b
+			}
+			for j := range b {
+				b[j] = byte(rng.Intn(256)) // rewritten in place: same slice, new content
+			}
+			if u.Put([]byte(k), b) == nil {
+				want[k] = append([]byte{}, b...)
+			}
+			n++
+		}
+		u.ClearCache()
+		for k, wv := range want {
+			v, gerr := u.Get([]byte(k))
+			if gerr != nil || !bytes.Equal(v, wv) {
+				msg := fmt.Sprintf("reused-buffer round %d (cache=%s db=%s): after ClearCache key %s reads %x (err %v), its last acknowledged Put carried %x (a Put of a rewritten buffer did not reach the persister)",
+					r, cc.Type, dc.Type, k, v, gerr, wv)
+				res.Fails = append(res.Fails, core.Fail{Property: prop, Step: -1, Msg: msg})
+			}
+		}
+		_ = u.Close()
+		res.Counts["reused-buffer-rounds"]++
+	}
+	return n
 }
